@@ -690,8 +690,126 @@ func bufferReplacedBeforeAppend(c *Ctx, fld *types.Var) bool {
 // ---------------------------------------------------------------------------------------------
 // R14.6 the source-map switch does not influence the code
 
+// bookkeepingTypes: struct types of package ast that hold nothing but a request for the source mapper (found and
+// verified by bookkeepingRequestTypes); they count as source-map locations.
+var bookkeepingTypes = map[*types.TypeName]bool{}
+
 func isSourcemapType(t types.Type) bool {
 	n := namedOf(t)
+	if n == nil {
+		if p, ok := t.Underlying().(*types.Pointer); ok {
+			n = namedOf(p.Elem())
+		}
+	}
+	if n != nil && bookkeepingTypes[n.Obj()] {
+		return true
+	}
+	return n != nil && n.Obj().Pkg() != nil && n.Obj().Pkg().Path() == modPath+"/sourcemap"
+}
+
+// bookkeepingRequestTypes finds the unexported struct types T of package ast reachable from a CodeWriter field of
+// type *T whose values are used for nothing but source-map bookkeeping: allocated, filled, stored into that writer
+// field, compared with nil, and read only into arguments of calls into package sourcemap or into branch conditions
+// (those branches are then checked like branches on the switch itself).
+func bookkeepingRequestTypes(c *Ctx) (map[*types.TypeName]bool, map[*types.Var]bool) {
+	out := map[*types.TypeName]bool{}
+	flds := map[*types.Var]bool{}
+	st := c.structOf("ast", "CodeWriter")
+	if st == nil {
+		return out, flds
+	}
+	for i := 0; i < st.NumFields(); i++ {
+		f := st.Field(i)
+		p, ok := f.Type().Underlying().(*types.Pointer)
+		if !ok {
+			continue
+		}
+		n := namedOf(p.Elem())
+		if n == nil || n.Obj().Exported() || n.Obj().Pkg() == nil || n.Obj().Pkg().Path() != modPath+"/ast" {
+			continue
+		}
+		if _, isStruct := n.Underlying().(*types.Struct); !isStruct {
+			continue
+		}
+		pure := true
+		isT := func(t types.Type) bool {
+			if nn := namedOf(t); nn != nil && nn.Obj() == n.Obj() {
+				return true
+			}
+			if pp, ok := t.Underlying().(*types.Pointer); ok {
+				if nn := namedOf(pp.Elem()); nn != nil && nn.Obj() == n.Obj() {
+					return true
+				}
+			}
+			return false
+		}
+		var okUse func(v ssa.Value, depth int) bool
+		okUse = func(v ssa.Value, depth int) bool {
+			if v.Referrers() == nil || depth > 6 {
+				return true
+			}
+			for _, r := range *v.Referrers() {
+				switch x := r.(type) {
+				case *ssa.DebugRef, *ssa.If:
+				case *ssa.BinOp, *ssa.UnOp, *ssa.FieldAddr, *ssa.Phi, *ssa.Convert, *ssa.ChangeType:
+					if !okUse(x.(ssa.Value), depth+1) {
+						return false
+					}
+				case *ssa.Store:
+					if x.Val == v {
+						// only into the writer field (a *T) or into a field of a T
+						fa, ok := x.Addr.(*ssa.FieldAddr)
+						if !ok || !(fieldOfAddr(fa) == f || isT(fa.X.Type())) {
+							return false
+						}
+					}
+				case *ssa.Call:
+					cal := x.Call.StaticCallee()
+					if cal == nil || pkgPathOf(cal) != modPath+"/sourcemap" {
+						return false
+					}
+				default:
+					return false
+				}
+			}
+			return true
+		}
+		for _, fn := range c.libFunctions() {
+			allInstrs(fn, func(_ *ssa.BasicBlock, _ int, in ssa.Instruction) {
+				v, ok := in.(ssa.Value)
+				if !ok {
+					return
+				}
+				// values of type T / *T / pointers to T's fields, and what is loaded from them
+				switch x := in.(type) {
+				case *ssa.Alloc:
+					if isT(x.Type()) && !okUse(x, 0) {
+						pure = false
+					}
+				case *ssa.FieldAddr:
+					if fieldOfAddr(x) == f && !okUse(x, 0) {
+						pure = false
+					}
+				default:
+					_ = v
+				}
+			})
+		}
+		if pure {
+			out[n.Obj()] = true
+			flds[f] = true
+		}
+	}
+	return out, flds
+}
+
+func isSourcemapPkgType(t types.Type) bool {
+	n := namedOf(t)
+	if n == nil {
+		if p, ok := t.Underlying().(*types.Pointer); ok {
+			n = namedOf(p.Elem())
+		}
+	}
 	return n != nil && n.Obj().Pkg() != nil && n.Obj().Pkg().Path() == modPath+"/sourcemap"
 }
 
@@ -766,9 +884,26 @@ func r14_6(c *Ctx) {
 		c.unres("anchors: compiler switch", compile.Pos(), "could not identify the Compiler field that guards the creation of the mapper (accepted idiom: if c.<flag> { w.Mapper = sourcemap.New() })")
 		return
 	}
+	bt, bflds := bookkeepingRequestTypes(c)
+	for k := range bookkeepingTypes {
+		delete(bookkeepingTypes, k)
+	}
+	var btNames []string
+	for k := range bt {
+		bookkeepingTypes[k] = true
+		btNames = append(btNames, k.Name())
+	}
+	sort.Strings(btNames)
+	c.Tables["R14.6_bookkeeping_request_types"] = btNames
 	isSwitch := func(v ssa.Value) bool {
 		if _, ok := isFieldLoad(v, mapperFld); ok {
 			return true
+		}
+		// the pending request and what is read from it
+		if u, ok := v.(*ssa.UnOp); ok && u.Op == token.MUL {
+			if fa, ok := u.X.(*ssa.FieldAddr); ok && (bflds[fieldOfAddr(fa)] || isSourcemapType(fa.X.Type()) && !isSourcemapPkgType(fa.X.Type())) {
+				return true
+			}
 		}
 		if _, ok := isFieldLoad(v, genFld); ok {
 			return true
@@ -893,9 +1028,17 @@ func notSourcemapOnly(in ssa.Instruction, mapperFld *types.Var) string {
 			}
 		}
 		return ""
+	case *ssa.Alloc:
+		if isSourcemapType(x.Type()) && !isSourcemapPkgType(x.Type()) {
+			return "" // a mapping request (verified bookkeeping type)
+		}
+		return fmt.Sprintf("%T", in)
 	case *ssa.Store:
 		if fa, ok := x.Addr.(*ssa.FieldAddr); ok && isSourcemapType(deref(fa.Type())) {
 			return ""
+		}
+		if fa, ok := x.Addr.(*ssa.FieldAddr); ok && isSourcemapType(fa.X.Type()) && !isSourcemapPkgType(fa.X.Type()) {
+			return "" // filling a mapping request
 		}
 		if al, ok := x.Addr.(*ssa.Alloc); ok && isSourcemapType(deref(al.Type())) {
 			return ""
@@ -941,6 +1084,9 @@ func badSourcemapUse(v ssa.Value, r ssa.Instruction) string {
 		}
 		return "dereferenced outside package sourcemap"
 	case *ssa.FieldAddr, *ssa.Field:
+		if !isSourcemapPkgType(v.Type()) {
+			return "" // a mapping request of package ast: its uses are verified by bookkeepingRequestTypes
+		}
 		return "a field of a sourcemap value is read outside package sourcemap"
 	case *ssa.Return:
 		return ""
